@@ -40,7 +40,8 @@ FullNodes ==
     NS("SweepSrc", <<3>>), NS("SweepMul", <<4>>),       \* a second sweep of each kind (same generated class name)
     WithBogus(NC("Mul", "factor", 4)), WithBogus(N0("Sq")), WithBogus(NK("Rename", "a", "b")),
     N0("PSrc"), N0("PSrcInj"), N0("PSink"), N0("Touch"), NK("ProbeP", "a", ""),
-    NC("CtxWP", "factor", 4), NS("SweepCtxW", <<2, 3>>), N0("SliceCtxW"),     \* context-writing element: plain, swept, sliced
+    NC("CtxWP", "factor", 4), NS("SweepCtxW", <<2, 3>>), N0("SliceCtxW"),
+    NC("Mul", "factor", NullCfg), NC("MulDef", "factor", NullCfg),           \* parameter configured as null     \* context-writing element: plain, swept, sliced
     Node("ProbeP", [x \in {"factor"} |-> 4], "factor", "", <<>>) }
 
 \* focus sets: fewer instances, longer programs
